@@ -24,10 +24,10 @@ var (
 
 type natRoles struct {
 	out, in, findOut, findIn, remove, alloc, pairMapped, pairLocal *ssa.Function
-	outEntry, inEntry                                               *ssa.Function // the methods the router calls; out/in are their bodies (a "...Locked" helper when the entry is only a lock wrapper)
-	routerIn                                                        *ssa.Function
-	problems                                                        []string
-	enum                                                            map[string]int64
+	outEntry, inEntry                                              *ssa.Function // the methods the router calls; out/in are their bodies (a "...Locked" helper when the entry is only a lock wrapper)
+	routerIn                                                       *ssa.Function
+	problems                                                       []string
+	enum                                                           map[string]int64
 }
 
 func resolveNAT(p *Prog) *natRoles {
@@ -873,7 +873,10 @@ func runC02(c *Ctx) {
 			}
 		}
 		// expired edge removes
-		rem := findU(f, func(in ssa.Instruction) bool { cl, ok := in.(*ssa.Call); return ok && cl.Call.StaticCallee() == r.remove })
+		rem := findU(f, func(in ssa.Instruction) bool {
+			cl, ok := in.(*ssa.Call)
+			return ok && cl.Call.StaticCallee() == r.remove
+		})
 		if len(rem) == 0 {
 			o.Fail(f.Pos(), "%s never removes an expired mapping", fname(f))
 		}
@@ -1101,7 +1104,10 @@ func runC02(c *Ctx) {
 					okIP = true
 				}
 				if fr, ok := asFieldLoad(k.V); ok && fr.SName == "net.UDPAddr" && fr.Field == "Port" &&
-					derivesFrom(fr.Base, func(v ssa.Value) bool { cl, ok := v.(*ssa.Call); return ok && cl.Call.IsInvoke() && cl.Call.Method.Name() == addrMeth }, false) {
+					derivesFrom(fr.Base, func(v ssa.Value) bool {
+						cl, ok := v.(*ssa.Call)
+						return ok && cl.Call.IsInvoke() && cl.Call.Method.Name() == addrMeth
+					}, false) {
 					okPortP = true
 				}
 			}
@@ -1309,7 +1315,9 @@ func runC03(c *Ctx) {
 			o.Fail(in.Pos(), "a successful inbound translation is reachable without a destination rewrite")
 		}
 	}
-	for _, in := range findU(IN, func(in ssa.Instruction) bool { return isSetAddr(in, "setDestinationAddr") || isSetAddr(in, "setSourceAddr") }) {
+	for _, in := range findU(IN, func(in ssa.Instruction) bool {
+		return isSetAddr(in, "setDestinationAddr") || isSetAddr(in, "setSourceAddr")
+	}) {
 		if clone == nil || in.(*ssa.Call).Call.Value != ssa.Value(clone) {
 			o.Fail(in.Pos(), "the address is rewritten on the original chunk, not on the clone")
 		}
@@ -1419,7 +1427,10 @@ func runC03(c *Ctx) {
 			o.Fail(in.Pos(), "the router does not push the chunk returned by the inbound translation")
 		}
 		if !hasFact(in, func(ft fact) bool {
-			return nilFact(ft, func(v ssa.Value) bool { e, ok := v.(*ssa.Extract); return ok && tcall != nil && e.Tuple == ssa.Value(tcall) && e.Index == 1 }, true)
+			return nilFact(ft, func(v ssa.Value) bool {
+				e, ok := v.(*ssa.Extract)
+				return ok && tcall != nil && e.Tuple == ssa.Value(tcall) && e.Index == 1
+			}, true)
 		}) {
 			o.Fail(in.Pos(), "the router forwards although the inbound translation reported an error (refused datagram delivered)")
 		}
@@ -1430,7 +1441,10 @@ func runC03(c *Ctx) {
 
 	// R7 1:1 unpaired -> error
 	o = c.Obl("R7", fname(IN), "1:1 mode: a destination without a paired local IP is refused with an error", 1)
-	for _, in := range findU(IN, func(in ssa.Instruction) bool { cl, ok := in.(*ssa.Call); return ok && cl.Call.StaticCallee() == r.pairLocal }) {
+	for _, in := range findU(IN, func(in ssa.Instruction) bool {
+		cl, ok := in.(*ssa.Call)
+		return ok && cl.Call.StaticCallee() == r.pairLocal
+	}) {
 		o.Site(in.Pos(), "pair lookup")
 		nilBlk := (*ssa.BasicBlock)(nil)
 		for _, b := range IN.Blocks {
